@@ -24,6 +24,7 @@ mod verif_l0_calc {
     fn l0_bit_location() {
         let p: u32 = kani::any();
         bit_location(p);
+        kani::cover!(true, "reach_end");
     }
 
     //@ob id=L0.range_value.28 props=C01,C02,C03 tier=quick kind=contract fns=utils/calc.rs:range_value
@@ -35,6 +36,7 @@ mod verif_l0_calc {
         let sb: u32 = kani::any();
         let eb: u32 = kani::any();
         range_value(&m, sb, eb);
+        kani::cover!(true, "reach_end");
     }
 
     //@ob id=L0.range_value.14 props=C01,C02,C03 tier=quick kind=contract fns=utils/calc.rs:range_value
@@ -46,6 +48,7 @@ mod verif_l0_calc {
         let sb: u32 = kani::any();
         let eb: u32 = kani::any();
         range_value(&m, sb, eb);
+        kani::cover!(true, "reach_end");
     }
 
     //@ob id=L0.flag_and_range_value.28 props=C01 tier=quick kind=contract fns=utils/calc.rs:flag_and_range_value
@@ -59,6 +62,7 @@ mod verif_l0_calc {
         let sb: u32 = kani::any();
         let eb: u32 = kani::any();
         flag_and_range_value(&m, flag, sb, eb);
+        kani::cover!(true, "reach_end");
     }
 
     //@ob id=L0.status_flag_and_range_value.28 props=C01 tier=quick kind=contract fns=utils/calc.rs:status_flag_and_range_value
@@ -73,5 +77,6 @@ mod verif_l0_calc {
         let sb: u32 = kani::any();
         let eb: u32 = kani::any();
         status_flag_and_range_value(&m, status, flag, sb, eb);
+        kani::cover!(true, "reach_end");
     }
 }
